@@ -40,7 +40,10 @@
 #include <sstream>
 #include <list>
 #include <new>
+#include <sys/time.h>
 
+#define FS_STR_(x) #x
+#define FS_STR(x) FS_STR_(x)
 using CT = FS_CT;
 using UCT = std::make_unsigned<CT>::type;
 static constexpr std::size_t N = FS_N;
@@ -56,7 +59,27 @@ using sstr = std::basic_string<CT>;
 static const size_type NPOS = fs::npos;
 static const long long DFLT = -2;
 
-static long long code(CT c) { return (long long)(UCT)c; }
+// Code units in scripts and traces are integers TLC can hold (|x| < 2^31) and whose integer order is the order
+// std::char_traits<CT>::lt uses: char -> 0..255 (lt compares as unsigned char), char16_t -> 0..65535, wchar_t -> its
+// own (signed, 32 bit) value, char32_t (unsigned, 32 bit) -> 0..2^30-1 unchanged and 2^30..2^31-1 for the top
+// 2^30 code units 0xC0000000..0xFFFFFFFF (monotone, so every comparison is preserved).
+template <class T> struct units
+{
+    static long long enc(T c) { return (long long)(typename std::make_unsigned<T>::type)c; }
+    static T dec(long long v) { return T((typename std::make_unsigned<T>::type)v); }
+};
+template <> struct units<wchar_t>
+{
+    static long long enc(wchar_t c) { return (long long)c; }
+    static wchar_t dec(long long v) { return wchar_t(v); }
+};
+template <> struct units<char32_t>
+{
+    static long long enc(char32_t c) { return c < 0x40000000u ? (long long)c : c >= 0xC0000000u ? (long long)(c - 0x80000000u) : -7; }
+    static char32_t dec(long long v) { return v < 0x40000000ll ? char32_t(v) : char32_t(v + 0x80000000ll); }
+};
+static long long code(CT c) { return units<CT>::enc(c); }
+static CT unit(long long v) { return units<CT>::dec(v); }
 static size_type P(long long x) { return x == -1 ? NPOS : size_type(x); }
 static long long posval(size_type p) { return p == NPOS ? -1 : (p > (size_type)1000000000 ? -3 : (long long)p); }
 
@@ -101,7 +124,10 @@ template <class F> static void construct(int k, F&& make)
 struct source
 {
     std::vector<CT> v;
-    explicit source(const vj::value& arr) { for (auto& e : arr.a) v.push_back(CT(UCT(e.i))); }
+    std::vector<long long> raw;      // the numbers as written in the script (an aliasing source keeps <<off[, cnt]>> here)
+    explicit source(const vj::value& arr) { for (auto& e : arr.a) { v.push_back(unit(e.i)); raw.push_back(e.i); } }
+    std::size_t off() const { return raw.empty() ? 0 : std::size_t(raw[0]); }
+    std::size_t cnt() const { return raw.size() < 2 ? 0 : std::size_t(raw[1]); }
     std::size_t n() const { return v.size(); }
     std::unique_ptr<CT[]> exact() const        // exactly n cells, no terminator
     {
@@ -159,7 +185,7 @@ static std::string strval(const fs& r, bool with_term)
     std::size_t lim = FS_REF ? n : std::min<std::size_t>(n, N + 1);
     for (std::size_t i = 0; i < lim; ++i) ch.push_back(code(r.data()[i]));
     o.kints("chars", ch);
-    o.kv("size", (long long)n);
+    o.kv("size", posval(n));
     if (with_term) o.kv("term", (FS_REF || n <= N) ? code(r.data()[n]) : -1);
     return o.obj();
 }
@@ -182,17 +208,21 @@ static std::string proj(int k)
     vj::out o;
     std::size_t n = cx.size();
     std::size_t lim = FS_REF ? n : std::min<std::size_t>(n, N + 1);    // never read outside the object
-    o.kv("size", (long long)n);
-    o.kv("len", (long long)cx.length());
+    o.kv("size", posval(n));
+    o.kv("len", posval(cx.length()));
     o.kb("empty", cx.empty());
-    o.kv("max", FS_REF ? (long long)N : (long long)cx.max_size());
+    o.kv("max", FS_REF ? (long long)N : posval(cx.max_size()));
     std::vector<long long> chars, fwd, rev;
     for (std::size_t i = 0; i < lim; ++i) chars.push_back(code(cx.data()[i]));
     o.kints("chars", chars);
     o.kv("term", (FS_REF || n <= N) ? code(cx.data()[n]) : -1);
-    o.kv("dist", (long long)(cx.end() - cx.begin()));
-    for (auto it = cx.begin(); it != cx.end() && fwd.size() < lim + 4; ++it) fwd.push_back(code(*it));
-    for (auto it = cx.rbegin(); it != cx.rend() && rev.size() < lim + 4; ++it) rev.push_back(code(*it));
+    o.kv("dist", posval(size_type(cx.end() - cx.begin())));
+    if (FS_REF || n <= N)
+    {
+        for (auto it = cx.begin(); it != cx.end() && fwd.size() < lim + 4; ++it) fwd.push_back(code(*it));
+        for (auto it = cx.rbegin(); it != cx.rend() && rev.size() < lim + 4; ++it) rev.push_back(code(*it));
+    }
+    else { fwd.push_back(-9); rev.push_back(-9); }     // size() > N: the iterator range is not inside the object, do not walk it
     o.kints("fwd", fwd).kints("rev", rev);
     o.kb("g", slot[k]->guards_ok());
     return o.obj();
@@ -231,6 +261,9 @@ template <class S> static size_type findcall(const S& fam, const fs& A, const fs
     if (sk == "ptrn") { auto q = src.exact(); return A.name(q.get(), p, src.n()); } \
     if (sk == "ptr") { auto q = src.cstr(); return d ? A.name(q.get()) : A.name(q.get(), p); } \
     if (sk == "ch") { return d ? A.name(src.v.at(0)) : A.name(src.v.at(0), p); } \
+    if (sk == "self") return d ? A.name(A) : A.name(A, p); \
+    if (sk == "selfp") return A.name(A.data() + src.off(), p, src.cnt()); \
+    if (sk == "selfz") return d ? A.name(A.c_str() + src.off()) : A.name(A.c_str() + src.off(), p); \
     bad("find source kind", sk);
     if (fam == "find") { FAM(find) }
     if (fam == "rfind") { FAM(rfind) }
@@ -264,7 +297,7 @@ static std::string step(const vj::value& e)
     auto B = [&]() -> fs& { return *slot[o]->obj(); };
     auto CA = [&]() -> const fs& { return *slot[k]->obj(); };
     auto num = [&](const char* key) { return a.num(key); };
-    auto ch = [&]() { return CT(UCT(a.num("ch"))); };
+    auto ch = [&]() { return unit(a.num("ch")); };
     auto sk = [&]() -> const std::string& { return a.str("sk"); };
     auto dflt = [&](const char* key) { return a.num(key) == DFLT; };
     try
@@ -272,15 +305,16 @@ static std::string step(const vj::value& e)
         if (op == "Reset")
         {
             if ((std::size_t)num("n") != N || (!FS_REF && ((a.str("policy") == "throwing") != bool(FS_THROW) || (a.str("layout") == "strlen") != bool(FS_STRLEN)))
-                || num("cw") != (long long)sizeof(CT))
+                || num("cw") != (long long)sizeof(CT) || (a.has("ct") && a.str("ct") != FS_STR(FS_CT)))
             {
                 std::fprintf(stderr, "script: Reset for another configuration than this binary (N=%zu throw=%d strlen=%d cw=%zu)\n", N, FS_THROW, FS_STRLEN, sizeof(CT));
                 std::exit(3);
             }
-            construct(0, [](void* m) { new (m) fs(); });
-            construct(1, [](void* m) { new (m) fs(); });
+            construct(0, [](void* m) { new (m) fs; });
+            construct(1, [](void* m) { new (m) fs; });
         }
-        else if (op == "CtorDefault") construct(k, [](void* m) { new (m) fs(); });
+        // default-INITIALISATION (`fs x;`, `new fs`) over memory that holds 0xEE bytes; "vi":1 asks for value-initialisation (`fs()`)
+        else if (op == "CtorDefault") { if (a.num("vi", 0)) construct(k, [](void* m) { new (m) fs(); }); else construct(k, [](void* m) { new (m) fs; }); }
         else if (op == "CtorFill") construct(k, [&](void* m) { new (m) fs(size_type(num("n")), ch()); });
         else if (op == "CtorSub")
         {
@@ -326,6 +360,7 @@ static std::string step(const vj::value& e)
             size_type p = P(num("pos"));
             if (sk() == "obj") val = selfval(dflt("n") ? A().assign(B(), p) : A().assign(B(), p, P(num("n"))), A());
             else if (sk() == "str") { sstr s = source(a.at("src")).str(); val = selfval(dflt("n") ? A().assign(s, p) : A().assign(s, p, P(num("n"))), A()); }
+            else if (sk() == "self") val = selfval(dflt("n") ? A().assign(CA(), p) : A().assign(CA(), p, P(num("n"))), A());
             else bad("AssignSub kind", sk());
         }
         else if (op == "AssignSeq")
@@ -340,6 +375,10 @@ static std::string step(const vj::value& e)
             else if (sk() == "str") { sstr s = src.str(); val = selfval(asg ? A().assign(s) : (A() = s), A()); }
             else if (sk() == "obj") val = selfval(asg ? A().assign(B()) : (A() = B()), A());
             else if (sk() == "objm") val = selfval(asg ? A().assign(std::move(B())) : (A() = std::move(B())), A());
+            else if (sk() == "self") val = selfval(asg ? A().assign(CA()) : (A() = CA()), A());
+            else if (sk() == "selfp") val = selfval(A().assign(CA().data() + src.off(), src.cnt()), A());
+            else if (sk() == "selfz") val = selfval(asg ? A().assign(CA().c_str() + src.off()) : (A() = CA().c_str() + src.off()), A());
+            else if (sk() == "selfit") val = selfval(A().assign(CA().begin() + std::ptrdiff_t(src.off()), CA().begin() + std::ptrdiff_t(src.off() + src.cnt())), A());
             else bad("AssignSeq kind", sk());
         }
         else if (op == "At") val = chval(num("c") ? CA().at(P(num("i"))) : A().at(P(num("i"))));
@@ -389,7 +428,7 @@ static std::string step(const vj::value& e)
         {
             std::size_t dn = std::size_t(num("dn"));
             std::unique_ptr<CT[]> dest(new CT[dn]);
-            for (std::size_t i = 0; i < dn; ++i) dest[i] = CT(UCT(num("fill")));
+            for (std::size_t i = 0; i < dn; ++i) dest[i] = unit(num("fill"));
             size_type r = dflt("pos") ? CA().copy(dest.get(), P(num("n"))) : CA().copy(dest.get(), P(num("n")), P(num("pos")));
             std::vector<long long> d;
             for (std::size_t i = 0; i < dn; ++i) d.push_back(code(dest[i]));
@@ -400,7 +439,10 @@ static std::string step(const vj::value& e)
         else if (op == "Swap")
         {
             if (a.str("ov") == "member") A().swap(B());
-            else { using std::swap; swap(A(), B()); }
+            else if (a.str("ov") == "free") { using std::swap; swap(A(), B()); }
+            else if (a.str("ov") == "memberself") A().swap(A());
+            else if (a.str("ov") == "freeself") { using std::swap; swap(A(), A()); }
+            else bad("swap overload", a.str("ov"));
         }
         else if (op == "InsertFill") val = selfval(A().insert(P(num("idx")), size_type(num("n")), ch()), A());
         else if (op == "InsertSeq")
@@ -411,6 +453,9 @@ static std::string step(const vj::value& e)
             else if (sk() == "ptrn") { auto q = src.exact(); val = selfval(A().insert(idx, q.get(), src.n()), A()); }
             else if (sk() == "obj") val = selfval(A().insert(idx, B()), A());
             else if (sk() == "str") { sstr s = src.str(); val = selfval(A().insert(idx, s), A()); }
+            else if (sk() == "self") val = selfval(A().insert(idx, CA()), A());
+            else if (sk() == "selfp") val = selfval(A().insert(idx, CA().data() + src.off(), src.cnt()), A());
+            else if (sk() == "selfz") val = selfval(A().insert(idx, CA().c_str() + src.off()), A());
             else bad("InsertSeq kind", sk());
         }
         else if (op == "InsertSub")
@@ -418,6 +463,7 @@ static std::string step(const vj::value& e)
             size_type idx = P(num("idx")), p = P(num("pos"));
             if (sk() == "obj") val = selfval(dflt("n") ? A().insert(idx, B(), p) : A().insert(idx, B(), p, P(num("n"))), A());
             else if (sk() == "str") { sstr s = source(a.at("src")).str(); val = selfval(dflt("n") ? A().insert(idx, s, p) : A().insert(idx, s, p, P(num("n"))), A()); }
+            else if (sk() == "self") val = selfval(dflt("n") ? A().insert(idx, CA(), p) : A().insert(idx, CA(), p, P(num("n"))), A());
             else bad("InsertSub kind", sk());
         }
         else if (op == "InsertIt")
@@ -433,6 +479,7 @@ static std::string step(const vj::value& e)
             if (sk() == "il") with_il(src.v, [&](std::initializer_list<CT> l) { auto r = A().insert(pos, l); val = itval(r - A().begin()); });
             else if (sk() == "itv") { auto c = src.vec(); auto r = A().insert(pos, c.begin(), c.end()); val = itval(r - A().begin()); }
             else if (sk() == "itl") { auto c = src.lst(); auto r = A().insert(pos, c.begin(), c.end()); val = itval(r - A().begin()); }
+            else if (sk() == "selfit") { auto f2 = CA().begin() + std::ptrdiff_t(src.off()); auto r = A().insert(pos, f2, f2 + std::ptrdiff_t(src.cnt())); val = itval(r - A().begin()); }
             else bad("InsertItSeq kind", sk());
         }
         else if (op == "Erase")
@@ -455,6 +502,10 @@ static std::string step(const vj::value& e)
             else if (sk() == "il") with_il(src.v, [&](std::initializer_list<CT> l) { val = selfval(app ? A().append(l) : (A() += l), A()); });
             else if (sk() == "itv") { auto c = src.vec(); val = selfval(A().append(c.begin(), c.end()), A()); }
             else if (sk() == "itl") { auto c = src.lst(); val = selfval(A().append(c.begin(), c.end()), A()); }
+            else if (sk() == "self") val = selfval(app ? A().append(CA()) : (A() += CA()), A());
+            else if (sk() == "selfp") val = selfval(A().append(CA().data() + src.off(), src.cnt()), A());
+            else if (sk() == "selfz") val = selfval(app ? A().append(CA().c_str() + src.off()) : (A() += CA().c_str() + src.off()), A());
+            else if (sk() == "selfit") { auto f2 = CA().begin() + std::ptrdiff_t(src.off()); val = selfval(A().append(f2, f2 + std::ptrdiff_t(src.cnt())), A()); }
             else bad("AppendSeq kind", sk());
         }
         else if (op == "AppendSub")
@@ -462,6 +513,7 @@ static std::string step(const vj::value& e)
             size_type p = P(num("pos"));
             if (sk() == "obj") val = selfval(dflt("n") ? A().append(B(), p) : A().append(B(), p, P(num("n"))), A());
             else if (sk() == "str") { sstr s = source(a.at("src")).str(); val = selfval(dflt("n") ? A().append(s, p) : A().append(s, p, P(num("n"))), A()); }
+            else if (sk() == "self") val = selfval(dflt("n") ? A().append(CA(), p) : A().append(CA(), p, P(num("n"))), A());
             else bad("AppendSub kind", sk());
         }
         else if (op == "Compare")
@@ -470,6 +522,8 @@ static std::string step(const vj::value& e)
             if (sk() == "obj") val = signval(CA().compare(B()));
             else if (sk() == "str") { sstr s = src.str(); val = signval(CA().compare(s)); }
             else if (sk() == "ptr") { auto q = src.cstr(); val = signval(CA().compare(q.get())); }
+            else if (sk() == "self") val = signval(CA().compare(CA()));
+            else if (sk() == "selfz") val = signval(CA().compare(CA().c_str() + src.off()));
             else bad("Compare kind", sk());
         }
         else if (op == "Compare1")
@@ -480,6 +534,9 @@ static std::string step(const vj::value& e)
             else if (sk() == "str") { sstr s = src.str(); val = signval(CA().compare(p1, n1, s)); }
             else if (sk() == "ptr") { auto q = src.cstr(); val = signval(CA().compare(p1, n1, q.get())); }
             else if (sk() == "ptrn") { auto q = src.exact(); val = signval(CA().compare(p1, n1, q.get(), src.n())); }
+            else if (sk() == "self") val = signval(CA().compare(p1, n1, CA()));
+            else if (sk() == "selfz") val = signval(CA().compare(p1, n1, CA().c_str() + src.off()));
+            else if (sk() == "selfp") val = signval(CA().compare(p1, n1, CA().data() + src.off(), src.cnt()));
             else bad("Compare1 kind", sk());
         }
         else if (op == "Compare2")
@@ -487,6 +544,7 @@ static std::string step(const vj::value& e)
             size_type p1 = P(num("pos1")), n1 = P(num("n1")), p2 = P(num("pos2"));
             if (sk() == "obj") val = signval(dflt("n2") ? CA().compare(p1, n1, B(), p2) : CA().compare(p1, n1, B(), p2, P(num("n2"))));
             else if (sk() == "str") { sstr s = source(a.at("src")).str(); val = signval(dflt("n2") ? CA().compare(p1, n1, s, p2) : CA().compare(p1, n1, s, p2, P(num("n2")))); }
+            else if (sk() == "self") val = signval(dflt("n2") ? CA().compare(p1, n1, CA(), p2) : CA().compare(p1, n1, CA(), p2, P(num("n2"))));
             else bad("Compare2 kind", sk());
         }
         else if (op == "Replace")
@@ -497,6 +555,9 @@ static std::string step(const vj::value& e)
             else if (sk() == "str") { sstr s = src.str(); val = selfval(A().replace(p, n, s), A()); }
             else if (sk() == "ptrn") { auto q = src.exact(); val = selfval(A().replace(p, n, q.get(), src.n()), A()); }
             else if (sk() == "ptr") { auto q = src.cstr(); val = selfval(A().replace(p, n, q.get()), A()); }
+            else if (sk() == "self") val = selfval(A().replace(p, n, CA()), A());
+            else if (sk() == "selfp") val = selfval(A().replace(p, n, CA().data() + src.off(), src.cnt()), A());
+            else if (sk() == "selfz") val = selfval(A().replace(p, n, CA().c_str() + src.off()), A());
             else bad("Replace kind", sk());
         }
         else if (op == "ReplaceSub")
@@ -504,6 +565,7 @@ static std::string step(const vj::value& e)
             size_type p = P(num("pos")), n = P(num("n")), p2 = P(num("pos2"));
             if (sk() == "obj") val = selfval(dflt("n2") ? A().replace(p, n, B(), p2) : A().replace(p, n, B(), p2, P(num("n2"))), A());
             else if (sk() == "str") { sstr s = source(a.at("src")).str(); val = selfval(dflt("n2") ? A().replace(p, n, s, p2) : A().replace(p, n, s, p2, P(num("n2"))), A()); }
+            else if (sk() == "self") val = selfval(dflt("n2") ? A().replace(p, n, CA(), p2) : A().replace(p, n, CA(), p2, P(num("n2"))), A());
             else bad("ReplaceSub kind", sk());
         }
         else if (op == "ReplaceFill") val = selfval(A().replace(P(num("pos")), P(num("n")), size_type(num("n2")), ch()), A());
@@ -518,6 +580,10 @@ static std::string step(const vj::value& e)
             else if (sk() == "il") with_il(src.v, [&](std::initializer_list<CT> il) { val = selfval(A().replace(f, l, il), A()); });
             else if (sk() == "itv") { auto c = src.vec(); val = selfval(A().replace(f, l, c.begin(), c.end()), A()); }
             else if (sk() == "itl") { auto c = src.lst(); val = selfval(A().replace(f, l, c.begin(), c.end()), A()); }
+            else if (sk() == "self") val = selfval(A().replace(f, l, CA()), A());
+            else if (sk() == "selfp") val = selfval(A().replace(f, l, CA().data() + src.off(), src.cnt()), A());
+            else if (sk() == "selfz") val = selfval(A().replace(f, l, CA().c_str() + src.off()), A());
+            else if (sk() == "selfit") { auto f2 = CA().begin() + std::ptrdiff_t(src.off()); val = selfval(A().replace(f, l, f2, f2 + std::ptrdiff_t(src.cnt())), A()); }
             else bad("ReplaceIt kind", sk());
         }
         else if (op == "ReplaceItFill")
@@ -539,6 +605,8 @@ static std::string step(const vj::value& e)
             else if (sk() == "ptrL") { auto q = src.cstr(); const CT* p = q.get(); val = boolval(relcall(rop, p, CA())); }
             else if (sk() == "str") { sstr s = src.str(); val = boolval(relcall(rop, CA(), s)); }
             else if (sk() == "strL") { sstr s = src.str(); val = boolval(relcall(rop, s, CA())); }
+            else if (sk() == "self") val = boolval(relcall(rop, CA(), CA()));
+            else if (sk() == "selfz") { const CT* p = CA().c_str() + src.off(); val = boolval(relcall(rop, CA(), p)); }
             else bad("Rel kind", sk());
         }
         else if (op == "Concat")
@@ -550,13 +618,13 @@ static std::string step(const vj::value& e)
             const CT* p = q.get();
             CT c = src.n() ? src.v[0] : CT(0);
             const fs& cb = B();
-            fs r = lk == "self" ? (rk == "obj" ? CA() + cb : rk == "objm" ? CA() + std::move(B()) : rk == "ptr" ? CA() + p : CA() + c)
+            fs r = lk == "self" ? (rk == "obj" ? CA() + cb : rk == "self" ? CA() + CA() : rk == "objm" ? CA() + std::move(B()) : rk == "ptr" ? CA() + p : CA() + c)
                  : lk == "selfm" ? (rk == "obj" ? std::move(A()) + cb : rk == "objm" ? std::move(A()) + std::move(B()) : rk == "ptr" ? std::move(A()) + p : std::move(A()) + c)
                  : lk == "ptr" ? (rk == "obj" ? p + cb : p + std::move(B()))
                  : (rk == "obj" ? c + cb : c + std::move(B()));
             val = strval(r, true);
         }
-        else if (op == "ToStd") { sstr s = CA(); std::vector<long long> cs; for (auto x : s) cs.push_back(code(x)); val = "{\"chars\":" + vj::ints(cs) + ",\"size\":" + std::to_string(s.size()) + "}"; }
+        else if (op == "ToStd") { sstr s = CA(); std::vector<long long> cs; for (auto x : s) { if (cs.size() > N + 8) break; cs.push_back(code(x)); } val = "{\"chars\":" + vj::ints(cs) + ",\"size\":" + std::to_string(posval(s.size())) + "}"; }
         else if (op == "StreamOut" || op == "StreamIn" || op == "GetLine")
         {
 #if FS_IO
@@ -565,8 +633,8 @@ static std::string step(const vj::value& e)
                 std::basic_ostringstream<CT> os;
                 os << CA();
                 sstr s = os.str();
-                std::vector<long long> cs; for (auto x : s) cs.push_back(code(x));
-                val = "{\"chars\":" + vj::ints(cs) + ",\"size\":" + std::to_string(s.size()) + "}";
+                std::vector<long long> cs; for (auto x : s) { if (cs.size() > N + 8) break; cs.push_back(code(x)); }
+                val = "{\"chars\":" + vj::ints(cs) + ",\"size\":" + std::to_string(posval(s.size())) + "}";
             }
             else if (op == "StreamIn") { std::basic_istringstream<CT> is(source(a.at("text")).str()); is >> A(); }
             else
@@ -574,8 +642,8 @@ static std::string step(const vj::value& e)
                 sstr text = source(a.at("text")).str();
                 std::basic_istringstream<CT> is(text);
                 using std::getline;
-                if (num("rv")) { if (dflt("delim")) getline(std::basic_istringstream<CT>(text), A()); else getline(std::basic_istringstream<CT>(text), A(), CT(UCT(num("delim")))); }
-                else { if (dflt("delim")) getline(is, A()); else getline(is, A(), CT(UCT(num("delim")))); }
+                if (num("rv")) { if (dflt("delim")) getline(std::basic_istringstream<CT>(text), A()); else getline(std::basic_istringstream<CT>(text), A(), unit(num("delim"))); }
+                else { if (dflt("delim")) getline(is, A()); else getline(is, A(), unit(num("delim"))); }
             }
 #else
             bad("op for this configuration", op);
@@ -589,18 +657,39 @@ static std::string step(const vj::value& e)
     return std::string("{\"exc\":\"") + exc + "\",\"val\":" + (std::strcmp(exc, "none") ? "[]" : val) + "}";
 }
 
+// A call that does not return: after FS_CALL_CPU_S seconds of CPU time in one call the trace is closed with a Crash
+// event (which no specification action matches) instead of hanging the run.
+#ifndef FS_CALL_CPU_S
+#define FS_CALL_CPU_S 2
+#endif
+static void on_cpu_limit(int)
+{
+    std::fflush(stdout);
+    vj::crash_line("call did not return (per-call CPU limit)");
+    _exit(0);
+}
+static void arm_cpu_limit()
+{
+    struct itimerval t;
+    t.it_interval.tv_sec = 0; t.it_interval.tv_usec = 0;
+    t.it_value.tv_sec = FS_CALL_CPU_S; t.it_value.tv_usec = 0;
+    setitimer(ITIMER_VIRTUAL, &t, nullptr);
+}
+
 int main()
 {
     vj::install_crash_handlers();
+    std::signal(SIGVTALRM, on_cpu_limit);
     std::ios::sync_with_stdio(false);
-    construct(0, [](void* m) { new (m) fs(); });
-    construct(1, [](void* m) { new (m) fs(); });
+    construct(0, [](void* m) { new (m) fs; });
+    construct(1, [](void* m) { new (m) fs; });
     std::string line, outbuf;
     bool lean = std::getenv("FS_LEAN") != nullptr;      // S->C replay: no hash / raw cells
     while (std::getline(std::cin, line))
     {
         if (line.empty()) continue;
         vj::value e = vj::parse(line);
+        arm_cpu_limit();
         std::string res = step(e);
         std::string head = line.substr(0, line.rfind('}'));
         outbuf = head + ",\"res\":" + res + ",\"st\":{\"o\":[" + proj(0) + "," + proj(1) + "]}";
